@@ -9,3 +9,8 @@ func yield() {
 	runtime.Gosched()
 	time.Sleep(2 * time.Millisecond)
 }
+
+// Nap makes the calling goroutine sleep natively (no happens-before edge to
+// anybody), so that another goroutine's work lands in the middle of the
+// caller's; under the symbolic executor it does nothing.
+func Nap() { time.Sleep(150 * time.Millisecond) }
